@@ -71,8 +71,7 @@ META = {
                     "email.utils.parseaddr(ident) is supplied to the model as an input of the case",
                     "the order of M commands (and of the leading D commands of kind changes) within a commit is supplied "
                     "to the model from the observed stream",
-                    "rich streams: entry revisions (ie.revision) follow the rule 'unchanged entry keeps its revision' "
-                    "along the left-hand parent; only linear histories are imported in rich mode",
+                    "only linear histories are imported in rich mode",
                     "Inventory.apply_delta / CHKInventory.create_by_apply_delta reject exactly the deltas that "
                     "FastIO.apply_delta rejects (duplicate ids, wrong old paths, duplicate names, missing or "
                     "non-directory parents, wrong new paths) -- compared on every case",
@@ -176,7 +175,8 @@ def corpus():
     out.append(_case(n, s, [_rev([], [d(1, 0, 3), d(2, 1, 4), f(3, 2, 0), f(4, 0, 1)]),
                             _rev([0], [f(3, 0, 0), f(4, 0, 1)])]))
     # rich streams (reported after 8f7ca2e made them importable):
-    # (1) rename directory d -> e, then in a later commit rename e/a: NoSuchFile (lookup by path in ie.revision)
+    # (1) rename directory d -> e, then in a later commit rename e/a: was NoSuchFile (text looked up by path in
+    #     ie.revision); repaired, must pass
     out.append(_case(n, s, [_rev([], [d(1, 0, 3), f(2, 1, 0)]), _rev([0], [d(1, 0, 4), f(2, 1, 0)]),
                             _rev([1], [d(1, 0, 4), f(2, 1, 1)])], plain=0))
     # (2) rename directory d -> e and chmod a child in the same commit: InconsistentDelta
@@ -426,31 +426,6 @@ def _tag_ref_ok(name):
     return check_ref_format(ref)
 
 
-def _stale_rename(case, anc):
-    """Rich, linear history: an entry is renamed (own name/parent) in a revision while its path in the revision
-    that last changed it differs from its path in the parent (a directory above it was renamed in between):
-    _rename_item looks the old path up in the tree of ie.revision."""
-    erev = {}      # revision -> {id: revision that last changed the entry}
-    for r in anc:
-        rev = case["revs"][r]
-        inv = _inv(case, r)
-        if not rev["parents"]:
-            erev[r] = {e[0]: r for e in inv}
-            continue
-        p = rev["parents"][0]
-        old = _inv(case, p)
-        cur = {}
-        for e in inv:
-            o = M.find_entry(old, e[0])
-            cur[e[0]] = erev[p].get(e[0], r) if (o is not None and o == e) else r
-        erev[r] = cur
-        for o, e in M.moved(old, inv):
-            at = erev[p].get(o[0])
-            if at is not None and M.id2path(_inv(case, at), o[0]) != M.id2path(old, o[0]):
-                return True
-    return False
-
-
 _REASON_CLASS = {"vacated": "rename-order", "late-delete": "rename-order", "below-file": "rename-order",
                  "into-moved-dir": "rename-order", "dir-to-file": "kind-dir", "dir-kind": "kind-dir",
                  "kind-to-dir-moved": "kind-dir", "rich-dir-rename-modified-child": "rich-dirmod",
@@ -486,8 +461,6 @@ def _features(case):
                 email.utils.parseaddr(S[rev["authors"][0]]) == email.utils.parseaddr(S[rev["committer"]]) \
                 and "<" in S[rev["authors"][0]] and "<" in S[rev["committer"]]:
             f.add("ident-author")
-    if not case["plain"] and _linear(case) and _stale_rename(case, anc):
-        f.add("stale-rename")
     if case["plain"] and not case["no_tags"]:
         for t, r in case["tags"]:
             if r in anc and not _tag_ref_ok(S[t]):
@@ -502,7 +475,6 @@ _TREE = [("C44-rename-order", "rename-order"), ("C44-kind-change-directory", "ki
 # failure class -> [(finding id, feature that must be present in the input)]
 _EXPLAIN = {
     "import-error:InconsistentDelta": _TREE,
-    "import-error:NoSuchFile": [("C44-rich-rename-after-directory-rename", "stale-rename")],
     # a rename cycle makes _rename_pending_change trip over an entry it has already turned into a delete
     "import-error:AttributeError": [("C44-rename-order", "rename-order")],
     "tree": _TREE,
